@@ -245,6 +245,7 @@ func runCheck(repo, verif, id, tier string, writeLedger bool) int {
 	if data, err := os.ReadFile(ledPath); err == nil {
 		json.Unmarshal(data, &led)
 	}
+	known := loadKnown(filepath.Join(verif, "known_findings.txt"))
 	// retry undecided obligations with a longer timeout, but only where a proof is expected
 	// (function unchanged w.r.t. the ledger); changed functions go straight to counterexample search
 	hashNow := map[string]string{}
@@ -254,6 +255,9 @@ func runCheck(repo, verif, id, tier string, writeLedger bool) int {
 	var retry []*Obligation
 	for _, o := range all {
 		if (o.Result == "unknown" || o.Result == "timeout") && !o.Cover {
+			if matchKnown(known, id, o.Name) != nil {
+				continue // a recorded finding: no proof is expected, no point in a longer run
+			}
 			if writeLedger || led.Functions == nil || led.Functions[o.Func] == hashNow[o.Func] {
 				retry = append(retry, o)
 			}
@@ -281,11 +285,11 @@ func runCheck(repo, verif, id, tier string, writeLedger bool) int {
 		os.WriteFile(ledPath, b, 0o644)
 		led = nl
 	}
-	known := loadKnown(filepath.Join(verif, "known_findings.txt"))
 
 	// decide
 	violations := 0
 	undecided := 0
+	var knownHit []string
 	discharged := 0
 	nObl := 0
 	var recs []oblRecord
@@ -336,6 +340,7 @@ func runCheck(repo, verif, id, tier string, writeLedger bool) int {
 			if kf := matchKnown(known, id, o.Name); kf != nil {
 				lines = append(lines, fmt.Sprintf("KNOWN-FINDING: property=%s %s", id, strings.TrimSpace(strings.Replace(kf.Text, "property="+id, "", 1))))
 				nObl-- // a recorded finding is not part of the proof claim
+				knownHit = append(knownHit, o.Name)
 				continue
 			}
 			ledRes, inLedger := led.Obls[o.Name]
@@ -487,6 +492,9 @@ func runCheck(repo, verif, id, tier string, writeLedger bool) int {
 	}
 	if expl != "" {
 		cov["explanation"] = expl
+	}
+	if len(knownHit) > 0 {
+		cov["known_findings_reported"] = knownHit
 	}
 	if len(samples) == 0 {
 		cov["samples"] = []interface{}{"none"}
